@@ -276,22 +276,26 @@ type opDef struct {
 	only  bool // Add only: the result is discarded
 	ivs   []iv
 	alien bool // exons located on another transcript
+	app   bool // SetExons(append(t.Exons(), ...)...): the new exons are appended to the slice the transcript handed out
 }
 
 var opDefs = []opDef{
-	{"Set{[0,2)}", true, false, []iv{{0, 2}}, false},
-	{"Set{[3,5),[0,2)}", true, false, []iv{{3, 5}, {0, 2}}, false},
-	{"Set{[4,6),[0,1),[1,3)}", true, false, []iv{{4, 6}, {0, 1}, {1, 3}}, false},
-	{"Set{overlap}", true, false, []iv{{0, 3}, {2, 5}}, false},
-	{"Set{no-zero}", true, false, []iv{{1, 2}}, false},
-	{"Set{foreign}", true, false, []iv{{0, 2}}, true},
-	{"Add{[5,6)}", false, false, []iv{{5, 6}}, false},
-	{"Add{[2,3)}", false, false, []iv{{2, 3}}, false},
-	{"Add{[1,2)}", false, false, []iv{{1, 2}}, false},
-	{"Add{[6,8),[3,4)}", false, false, []iv{{6, 8}, {3, 4}}, false},
-	{"Add{foreign [7,8)}", false, false, []iv{{7, 8}}, true},
-	{"AddOnly{[5,6)}", false, true, []iv{{5, 6}}, false},
-	{"AddOnly{[1,4)}", false, true, []iv{{1, 4}}, false},
+	{"Set{[0,2)}", true, false, []iv{{0, 2}}, false, false},
+	{"Set{[3,5),[0,2)}", true, false, []iv{{3, 5}, {0, 2}}, false, false},
+	{"Set{[4,6),[0,1),[1,3)}", true, false, []iv{{4, 6}, {0, 1}, {1, 3}}, false, false},
+	{"Set{overlap}", true, false, []iv{{0, 3}, {2, 5}}, false, false},
+	{"Set{no-zero}", true, false, []iv{{1, 2}}, false, false},
+	{"Set{foreign}", true, false, []iv{{0, 2}}, true, false},
+	{"Add{[5,6)}", false, false, []iv{{5, 6}}, false, false},
+	{"Add{[2,3)}", false, false, []iv{{2, 3}}, false, false},
+	{"Add{[1,2)}", false, false, []iv{{1, 2}}, false, false},
+	{"Add{[6,8),[3,4)}", false, false, []iv{{6, 8}, {3, 4}}, false, false},
+	{"Add{foreign [7,8)}", false, false, []iv{{7, 8}}, true, false},
+	{"AddOnly{[5,6)}", false, true, []iv{{5, 6}}, false, false},
+	{"AddOnly{[1,4)}", false, true, []iv{{1, 4}}, false, false},
+	{"SetAppend{[1,2)}", true, false, []iv{{1, 2}}, false, true},
+	{"SetAppend{[5,6)}", true, false, []iv{{5, 6}}, false, true},
+	{"SetAppend{[2,4),[0,1)}", true, false, []iv{{2, 4}, {0, 1}}, false, true},
 }
 
 func disjoint(ivs []iv) bool {
@@ -323,7 +327,35 @@ func historyCase(c *enum.Ctx, k kase) (key string, transitions int) {
 		before := snapshot(t.Exons())
 		transitions++
 		name := fmt.Sprintf("step %d %s", step, op.name)
-		if op.set {
+		if op.set && op.app {
+			// the caller extends the slice the transcript handed out (re-housed with spare capacity so
+			// that append writes into it) and hands the result back; a refused call leaves both as they were
+			old := t.Exons()
+			if k.Spare > 0 && len(old) > 0 {
+				roomy := make(gene.Exons, len(old), len(old)+k.Spare+len(exs))
+				copy(roomy, old)
+				if t.SetExons(roomy...) != nil {
+					return "", transitions
+				}
+				old = t.Exons()
+			}
+			oldSnap := snapshot(old)
+			all := append(append([]iv{}, model...), op.ivs...)
+			err := t.SetExons(append(old, exs...)...)
+			accept := valid(all)
+			if (err == nil) != accept {
+				c.Fail("history/SetExons-verdict", k, "%s on %v: err=%v, want accepted=%v", name, model, err, accept)
+				return "", transitions
+			}
+			if err != nil && fmt.Sprint(snapshot(old)) != fmt.Sprint(oldSnap) {
+				c.Fail("history/SetExons-rejected-changed-old-slice", k, "%s rejected, but the exon slice the transcript had handed out changed from %v to %v", name, oldSnap, snapshot(old))
+				return "", transitions
+			}
+			if accept {
+				model = all
+				sort.Slice(model, func(i, j int) bool { return model[i].S < model[j].S })
+			}
+		} else if op.set {
 			err := t.SetExons(exs...)
 			accept := valid(op.ivs) && !op.alien
 			if (err == nil) != accept {
@@ -403,6 +435,81 @@ func historyCase(c *enum.Ctx, k kase) (key string, transitions int) {
 	return fmt.Sprint(model), transitions
 }
 
+// manyCase: a transcript of k.Depth exons [10i,10i+5); at three places an exon is added that lies in an
+// intron (accepted: sorted, disjoint, one more), that starts in an intron and runs into the next exon, and
+// that starts inside an exon (both refused, the old slice as it was).
+func manyCase(c *enum.Ctx, k kase) bool {
+	n := k.Depth
+	var t gene.Transcript = &gene.NonCodingTranscript{ID: "t"}
+	if k.Coding {
+		t = &gene.CodingTranscript{ID: "t"}
+	}
+	var ivs []iv
+	for i := 0; i < n; i++ {
+		ivs = append(ivs, iv{10 * i, 10*i + 5})
+	}
+	if err := t.SetExons(mkExons(t, permute(ivs, k.Shuffle))...); err != nil {
+		c.Fail("many/SetExons", k, "SetExons of %d disjoint exons: %v", n, err)
+		return true
+	}
+	// the caller extends the slice the transcript hands out (whatever capacity it happens to have) with an
+	// exon that sorts between two others and overlaps the second: refused, and the transcript as it was
+	for _, j := range []int{0, n / 2, n - 2} {
+		if j < 0 || j+1 >= n {
+			continue
+		}
+		before := snapshot(t.Exons())
+		bad := mkExons(t, []iv{{10*j + 6, 10*j + 13}})
+		if err := t.SetExons(append(t.Exons(), bad...)...); err == nil {
+			c.Fail("many/SetExons-verdict", k, "SetExons(append(Exons(), [%d,%d))...) accepted an overlapping exon", 10*j+6, 10*j+13)
+			return true
+		}
+		if after := snapshot(t.Exons()); fmt.Sprint(after) != fmt.Sprint(before) {
+			c.Fail("many/SetExons-rejected-changed-exons", k, "a refused SetExons(append(Exons(), [%d,%d))...) on %d exons (capacity %d) changed the transcript's exon set", 10*j+6, 10*j+13, n, cap(t.Exons()))
+			return true
+		}
+	}
+	for _, j := range []int{0, n / 2, n - 2} {
+		if j < 0 || j+1 >= n { // the probes speak of the exon that follows
+			continue
+		}
+		for _, probe := range []struct {
+			v      iv
+			accept bool
+		}{{iv{10*j + 6, 10*j + 9}, true}, {iv{10*j + 6, 10*j + 12}, false}, {iv{10*j + 3, 10*j + 7}, false}, {iv{10*j + 5, 10*j + 10}, true}} {
+			old := t.Exons()
+			if k.Spare > 0 {
+				roomy := make(gene.Exons, len(old), len(old)+k.Spare)
+				copy(roomy, old)
+				old = roomy
+			}
+			oldSnap := snapshot(old)
+			ns, err := old.Add(mkExons(t, []iv{probe.v})...)
+			if (err == nil) != probe.accept {
+				c.Fail("many/Add-verdict", k, "Add of [%d,%d) to %d exons [10i,10i+5): err=%v, want accepted=%v", probe.v.S, probe.v.E, n, err, probe.accept)
+				return true
+			}
+			if fmt.Sprint(snapshot(old)) != fmt.Sprint(oldSnap) {
+				c.Fail("many/Add-changed-old-slice", k, "Add of [%d,%d) (accepted=%v) changed the slice it was called on", probe.v.S, probe.v.E, probe.accept)
+				return true
+			}
+			if err == nil {
+				if len(ns) != n+1 {
+					c.Fail("many/Add-count", k, "Add of one exon to %d gave %d", n, len(ns))
+					return true
+				}
+				for i := 1; i < len(ns); i++ {
+					if ns[i].Start() < ns[i-1].End() {
+						c.Fail("many/Add-order", k, "after Add of [%d,%d): exon %d [%d,%d) does not follow exon %d [%d,%d)", probe.v.S, probe.v.E, i, ns[i].Start(), ns[i].End(), i-1, ns[i-1].Start(), ns[i-1].End())
+						return true
+					}
+				}
+			}
+		}
+	}
+	return true
+}
+
 func check(c *enum.Ctx, k kase) bool {
 	switch k.Kind {
 	case "layout":
@@ -414,12 +521,14 @@ func check(c *enum.Ctx, k kase) bool {
 	case "history":
 		historyCase(c, k)
 		return true
+	case "many":
+		return manyCase(c, k)
 	}
 	panic("kind")
 }
 
 func run(c *enum.Ctx) {
-	c.Rule("layouts: every set of <=3 intervals inside [0,L] (L=5 quick, 6 thorough; accepted and rejected sets alike) in 3 input orders x CDS bounds x orientation at transcript/gene/chromosome level x offsets {0,3} x coding/non-coding; chains of depth 1,2,3,999,1000; conversions on -6..6 and the int extremes; histories: BFS over sequences of <=3 (thorough 4) operations from 13 accepted/rejected SetExons/Add operations with spare capacity 0 and 2, on a coding and a non-coding transcript, de-duplicated on the model exon set, compared with a plain model (exon set, introns, extent) after every operation; non-trivial = accepted layouts and all histories")
+	c.Rule("layouts: every set of <=3 intervals inside [0,L] (L=5 quick, 6 thorough; accepted and rejected sets alike) in 3 input orders x CDS bounds x orientation at transcript/gene/chromosome level x offsets {0,3} x coding/non-coding; chains of depth 1,2,3,999,1000; conversions on -6..6 and the int extremes; transcripts of 2..40 and 2^k-1, 2^k, 2^k+1 (63..257) exons with an exon added inside an intron, from an intron into the next exon, from inside an exon, and filling an intron; histories: BFS over sequences of <=3 (thorough 4) operations from 16 accepted/rejected SetExons/Add operations (SetExons also of the transcript's own exon slice extended with append) with spare capacity 0 and 2, on a coding and a non-coding transcript, de-duplicated on the model exon set, compared with a plain model (exon set, introns, extent) after every operation; non-trivial = accepted layouts and all histories")
 	L := 5
 	depth := 3
 	if !c.Quick {
@@ -492,6 +601,19 @@ func run(c *enum.Ctx) {
 	}
 	do(kase{Kind: "conv", Pos: int(^uint(0)>>1) - 1})
 	do(kase{Kind: "conv", Pos: -int(^uint(0)>>1) - 1})
+	// the size ladder of the exon count: transcripts of 2^k-1, 2^k, 2^k+1 exons (7..257), exons added in the
+	// first, a middle and the last intron
+	var counts []int
+	for n := 2; n <= 40; n++ { // every small count (the capacity append leaves differs from count to count)
+		counts = append(counts, n)
+	}
+	for _, n := range append(counts, enum.Ladder(41, 257)...) {
+		for _, coding := range []bool{false, true} {
+			for _, spare := range []int{0, 2} {
+				do(kase{Kind: "many", Depth: n, Coding: coding, Spare: spare, Shuffle: n % 3})
+			}
+		}
+	}
 	// histories
 	var states, trans, traces int64
 	for _, cfg := range []int{0, 2, 4, 6} {
